@@ -7,7 +7,7 @@ Extraction "extracted/C10_model.ml" xb_types grpc_code doc_code autotag_go autot
   base_shoot base_spec hscen_shoot hscen_spec gscen_shoot gscen_spec grpc_shoot gcall_code
   base_shoot_ev hscen_ev gscen_ev grpc_ev at_report at_end late_writes handoff_ok
   max_token cfg0 cycle_take uri_decode render_uri uri_entries wf_uitem uripost_decode render_uripost uripost_entries wf_pitem
-  raw_decode render_raw raw_entries wf_ritem json_stream_decode read_array shoot_deliveries ammo_spec
+  raw_decode render_raw raw_entries wf_ritem json_stream_decode json_array_decode read_array shoot_deliveries ammo_spec
   hscen_shoot_decl hscen_ev_decl gscen_shoot_decl gscen_ev_decl hscen_decl_spec gscen_decl_spec hscen_file_shoot hscen_file_ev hscen_file_spec gscen_file_shoot gscen_file_ev gscen_file_spec
   shot_reports shot_spec shot_requests run_lines run_lost lazy_history report_variant gen_phout_report_plain_send gen_phout_run_drains
   slow_run_lines slow_run_over engine_ooa gen_ooa_calls
